@@ -258,6 +258,31 @@ Print Assumptions C04_push_move.
 
 (* non-vacuity: a concrete 14-call history over the new calls follows the rules, so the theorem applies to it;
    and a read before the first store is not a legal history (the model reports it as a fault) *)
+(* every call of the three layers that follows the rules and the no-cycle rule [below_rule3] (for the
+   idioms that insert an item: the client can exhibit a topological order of the containment graph in which
+   the inserted item lies below the container -- as [below_rule] of the first layer) keeps the containment
+   graph acyclic ... *)
+Theorem C04_step3_acyclic : forall refuse L s own ownd w o,
+  Inv own ownd [] w -> caps w -> legal3 s own w o -> acyclic w -> below_rule3 s w o ->
+  exists r w', step3 refuse L s o w = Ret r w' /\ acyclic w'.
+Proof. exact step3_acyclic. Qed.
+Print Assumptions C04_step3_acyclic.
+
+(* ... so that, with NOTHING assumed of the final heap: after a history over the calls of all three layers
+   that follows the rules, once the client has given back all its references, no memory obtained through
+   the allocator remains *)
+Theorem C04_history3_no_leak : forall refuse L ops s' outs w',
+  rules_history3 refuse L ops s3_0 own0 world0 ->
+  run_hist3 refuse L ops s3_0 [] world0 = Ret (s', outs) w' ->
+  (forall a, own_hist3 refuse L ops s3_0 own0 world0 a = 0) ->
+  forall a, heap w' a = None.
+Proof. exact C04_history3_no_leak_acyclic. Qed.
+Print Assumptions C04_history3_no_leak.
+
+(* non-vacuity of the no-cycle rule too: the 14-call history satisfies [rules_history3] *)
+Example C04_rules_history3_nonvacuous : rules_history3 never 8 ex3_ops s3_0 own0 world0.
+Proof. exact ex3_rules3. Qed.
+
 Example C04_history3_nonvacuous :
   legal_history3 never 8 ex3_ops s3_0 own0 world0 /\
   (exists s' outs w', run_hist3 never 8 ex3_ops s3_0 [] world0 = Ret (s', outs) w' /\
